@@ -197,6 +197,16 @@ class C05(C.ProgramDiff):
         return C.ProgramDiff.decide(self, case)
 
     def decide_soak(self, case):
+        from ..runner import FAIL
+        from .. import impl
+        try:
+            return self._decide_soak(case)
+        except RecursionError:
+            raise
+        except Exception as e:      # noqa  - an engine that starts raising after many cuts / abandoned goals has changed its answers
+            return FAIL('soak:exception:' + impl.exc_signature(e), {'text': case['text'], 'error': '%s: %s' % (type(e).__name__, str(e)[:200])})
+
+    def _decide_soak(self, case):
         from ..runner import OK, FAIL
         from .. import impl
         text, n = case['text'], case['soak']
